@@ -20,7 +20,7 @@ func init() {
 			"(3) first-success-wins in the three parallel candidate evaluations: every write to a captured 'chosen' variable happens with the mutex held, only when i < idx, and is followed by idx = i; " +
 			"(4) the instance types sent to the provider are lo.Slice of the direct result of OrderByPrice (Truncate and ToNodeClaim), and OrderByPrice's comparator is min-over-offerings(Available ∧ IsCompatible) on each side compared with <.",
 		NotCovered: []string{"sort.Slice's own correctness and stability", "fairness under price ties", "floating point prices (NaN)"},
-		Rules: c19Rules,
+		Rules:      c19Rules,
 	})
 }
 
